@@ -61,6 +61,11 @@ def check_index(acc, lib, S, h, o, keys=None, prefix=True, area_sum=None):
         sc = 2 ** h
         ij = face_to_ij((c[0] * sc, c[1] * sc))
         back = hilbert.ij_to_s(ij, h, o)
+        as_list = [ij[0], ij[1]]
+        back_l = hilbert.ij_to_s(as_list, h, o)
+        if as_list != [ij[0], ij[1]] or back_l != back:
+            acc.violation(k + ':argument', f'ij_to_s modified the list it was given ({[ij[0], ij[1]]} -> {as_list}) or answered differently for a list ({back_l} vs {back})', case)
+            return
     except Exception as e:
         acc.violation(k + ':raises', f'raised {e!r}', case)
         return
@@ -122,6 +127,38 @@ def work_exhaustive(task):
     return acc
 
 
+def work_interleaved(task):
+    """the same indices visited orientation-innermost (uv, vu, uw, wu, vw, wv and back for ONE (level, S) before the next S): a mapping that
+    remembers anything about the previous call (e.g. a memo that forgets part of the orientation) answers differently in this order"""
+    h, lo, hi = task
+    lib = _lib()
+    acc = common.Acc()
+    order = list(ORIENTATIONS) + list(reversed(ORIENTATIONS)) + ['uv', 'wv', 'uv', 'vu', 'vw', 'vu', 'uw', 'wu', 'uw']
+    for S in range(lo, hi):
+        for o in order:
+            check_index(acc, lib, S, h, o, None, False)
+    acc.strata[f'interleaved_h{h:02d}'] += (hi - lo) * len(order)
+    acc.n['nontrivial'] += hi - lo
+    return acc
+
+
+def work_interleaved_deep(task):
+    h, width = task
+    lib = _lib()
+    acc = common.Acc()
+    order = list(ORIENTATIONS) + list(reversed(ORIENTATIONS)) + ['uv', 'wv', 'uv', 'vu', 'vw', 'vu', 'uw', 'wu', 'uw']
+    seen = set()
+    for d in seeds.g1_patterns(h, 'single'):
+        S = seeds.digits_to_s(d)
+        if S in seen:
+            continue
+        seen.add(S)
+        for o in order:
+            check_index(acc, lib, S, h, o, None, False)
+    acc.strata[f'interleaved_h{h:02d}'] += len(seen) * len(order)
+    return acc
+
+
 def work_deep(task):
     o, h, width = task
     lib = _lib()
@@ -154,6 +191,13 @@ def run(tier, t0):
     for o in ORIENTATIONS:
         for h in range(H + 1, 29):
             tasks.append((work_deep, (o, h, width)))
+    for h in range(1, (5 if tier == 'quick' else 7) + 1):
+        n = 4 ** h
+        step = max(n // 4, 1) if h >= 5 else n
+        for lo in range(0, n, step):
+            tasks.append((work_interleaved, (h, lo, min(lo + step, n))))
+    for h in range(6 if tier == 'quick' else 8, 29):
+        tasks.append((work_interleaved_deep, (h, width)))
     tasks = common.rotate(tasks, common.seed())
     sums = {}
     cnts = {}
